@@ -355,6 +355,23 @@ def run(repo: Repo, chk: Check, thorough: bool = False) -> None:
                f'`{norm(c)[:80]}` leaves linebreakok at its default (True) while maxlines is 1: the default `sep=\'\\n\'` is displayed as `sep=\'\'\'` + "..." '
                '- not valid Python', repo.loc(ci.mod, c))
 
+    # the regular-expression colorizer prints a hard-coded `re.compile(r'...')` and binds the arguments to re.compile's signature: it may only be
+    # used for calls whose callee is exactly re.compile
+    cac = repo.func(f'{COL}._colorize_ast_call')
+    cfc = CFG(cac)
+    rec = [c for c in calls_in(cac) if call_name(c) == '_colorize_ast_re']
+    if not rec:
+        raise AnalysisError('R15.4: _colorize_ast_call no longer dispatches to _colorize_ast_re')
+    for c in rec:
+        exact_re = any(pol and isinstance(t, ast.Compare) and len(t.ops) == 1 and isinstance(t.ops[0], ast.Eq) and
+                       any(isinstance(x, ast.List) and [const_str(e) for e in x.elts] == ['re', 'compile'] for x in (t.left, t.comparators[0])) and
+                       not any(isinstance(x, ast.Subscript) for x in (t.left, t.comparators[0]))
+                       for t, pol in cfc.dominating_tests(cfc.stmt_of(c)))
+        chk.ob('R15.4', f'{COL}._colorize_ast_call :: the regex form is used for re.compile(...) only', exact_re,
+               "node2dottedname(func) == ['re', 'compile']" if exact_re else
+               'the test accepts other callees: `regex.compile(...)` or `env.compile(pattern=...)` is displayed as `re.compile(r\'...\')` - another callee, keyword '
+               'arguments turned positional, the string re-spelled as a regex', repo.loc(cac.mod, c))
+
     # ------------------------------------------------------------------ R15.6 control characters keep their value
     check_control_escape(repo, chk, 'R15.6')
 
